@@ -259,13 +259,18 @@ def run_cases_dir(cdir, timeout=1800, jobs=16):
         except subprocess.TimeoutExpired:
             p.kill()
             errs.append("%s: coqc timeout" % f)
-    for f in killed:
-        p = start(f)
-        try:
-            harvest(p, f, last=True)
-        except subprocess.TimeoutExpired:
-            p.kill()
-            errs.append("%s: coqc timeout" % f)
+    attempt = 0
+    while killed:
+        attempt += 1
+        again, killed[:] = list(killed), []
+        time.sleep(15 * attempt)
+        for f in again:
+            p = start(f)
+            try:
+                harvest(p, f, last=(attempt >= 3))
+            except subprocess.TimeoutExpired:
+                p.kill()
+                errs.append("%s: coqc timeout" % f)
     return fails, errs
 
 
